@@ -156,8 +156,48 @@ class SiteChecker:
             goal = (x[0], y[0], y[1] - x[1] + extra)
             all_facts = facts + self.res.extra_axioms
             all_facts = all_facts + self.res.axioms(bounds.keys_of(all_facts + [goal]))
-            proved.append(bounds.entails(all_facts, goal))
+            ok = bounds.entails(all_facts, goal)
+            if not ok:
+                ok = self._prove_by_cases(bi, x, y, extra, facts)
+            proved.append(ok)
         return proved, guards
+
+    def _prove_by_cases(self, bi, x, y, extra, facts_at_use):
+        """`let end = match v { Some(i) if i > start => i, None => args.len(), .. }; &args[start + 1..end]`: a bound that is a
+        variable assigned once in each of several arms (none of them in a loop) is proved arm by arm, each with the guards of
+        its arm; what is known at the use and does not mention the variable holds in every arm."""
+        b = self.b
+        for side in (0, 1):
+            term = (x, y)[side]
+            k = term[0]
+            if k is None or k[0] != "var":
+                continue
+            l = k[1]
+            defs = b.defs().get(l, [])
+            if len(defs) < 2 or any(b.in_loop(d[0]) or d[2].get("k") == "partial" for d in defs) or l in b.mut_borrowed_locals() or not all(b.dominates(d[0], bi) or bi in b.reachable_from(d[0]) for d in defs):
+                continue
+            keep = [f for f in facts_at_use if k not in (f[0], f[1])]
+            every = True
+            for (db, _di, rv) in defs:
+                if rv.get("k") == "call":
+                    val = self.res.lin_rvalue({"k": "call", "t": rv["t"]}, l, 0)
+                else:
+                    val = self.res.lin_rvalue(rv, l, 0)
+                if val[0] is not None and val[0][0] == "tmp":
+                    every = False
+                    break
+                val = (val[0], val[1] + term[1])
+                nx, ny = (val, y) if side == 0 else (x, val)
+                goal = (nx[0], ny[0], ny[1] - nx[1] + extra)
+                arm_facts, _g = bounds.collect_facts(self.res, db)
+                allf = keep + list(arm_facts) + list(self.pfacts) + self.res.extra_axioms
+                allf = allf + self.res.axioms(bounds.keys_of(allf + [goal]))
+                if not bounds.entails(allf, goal):
+                    every = False
+                    break
+            if every:
+                return True
+        return False
 
     def term_str(self, t):
         k, c = t
